@@ -13,6 +13,7 @@ structure S where
   st : St := {}
   rolledBack : Bool := false
   partialReread : Bool := false
+  pendingGet : Bool := false      -- a Get started by "bget" is still polling
 
 def step (x : S) (w : List String) : Option (S × String × List String) :=
   let s := x.st
@@ -22,6 +23,7 @@ def step (x : S) (w : List String) : Option (S × String × List String) :=
     some ({ x with st := send s v }, "ok", [])
   | ["closesrc"] => some ({ x with st := closeSrc s }, "ok", ["src_closed"])
   | ["get"] =>
+    if x.pendingGet then none else
     let (s', r) := getOp s
     match r with
     | .val v =>
@@ -30,6 +32,23 @@ def step (x : S) (w : List String) : Option (S × String × List String) :=
         (if replay then ["replay"] else []) ++ (if s.srcClosed then ["get_after_srcclose"] else []))
     | .blocked => some (x, "blocked", if s.srcClosed then ["blocked_closed_src"] else ["blocked"])
     | .err e => some (x, "err " ++ errStr e, ["get_err"])
+  | ["bget"] =>
+    -- a Get that keeps polling while the following operations run: each poll is one `getOp`
+    if x.pendingGet then none else
+    let (s', r) := getOp s
+    match r with
+    | .val v => some ({ x with st := s' }, s!"val {v}", if s.rollback > 0 then ["replay"] else [])
+    | .blocked => some ({ x with pendingGet := true }, "pending", ["get_left_blocked"])
+    | .err e => some (x, "err " ++ errStr e, ["get_err"])
+  | ["bgetres"] =>
+    -- after an operation: the blocked Get returns as soon as one of its polls finds something
+    if !x.pendingGet then none else
+    let (s', r) := getOp s
+    match r with
+    | .val v => some ({ x with st := s', pendingGet := false }, s!"val {v}",
+        if s.rollback > 0 then ["blocked_get_woken_by_rollback", "replay"] else ["blocked_get_woken_by_send"])
+    | .blocked => some (x, "pending", [])
+    | .err e => some ({ x with pendingGet := false }, "err " ++ errStr e, ["blocked_get_woken_by_close"])
   | ["commit"] =>
     let (s', e) := commit s
     some ({ x with st := s' }, optErr e,
